@@ -64,6 +64,10 @@ def document(kind):
                     "cs": dict(CONV_SCHEMA, description="conversion schema inlined at a use site"),
                     "cv": {"type": "array", "items": dict(CONV_SCHEMA, title="Titled")}}, ["a"]),
         "IndEnum": {"oneOf": [obj({"A": INT}, ["A"]), {"type": "string", "enum": ["B"]}]},
+        # named types that are NOT definitions: inline titled subschemas (patch targets of the patch_inline feature)
+        "IndInline": obj({"mode": {"title": "InlineMode", "type": "string", "enum": ["x", "y"]},
+                          "tags": {"type": "array", "items": {"title": "InlineLabel", "type": "string", "maxLength": 5}},
+                          "deep": {"title": "InlineObj", "type": "object", "properties": {"k": INT}}}),
     }
     for k in ("UExt",):
         for sub in defs[k]["oneOf"]:
@@ -74,7 +78,7 @@ def document(kind):
     return {"definitions": defs}
 
 
-FEATURES = ["replace", "convert", "convert_annot", "patch", "derive", "map_btree", "map_vmap", "builder"]
+FEATURES = ["replace", "convert", "convert_annot", "patch", "patch_inline", "derive", "map_btree", "map_vmap", "builder"]
 
 
 def settings_for(feats):
@@ -87,6 +91,10 @@ def settings_for(feats):
         st["convert"] = [{"schema": dict(CONV_SCHEMA, description="given with annotations", title="ConvTitle"), "type": CONV, "impls": ["FromStr", "Display"]}]
     if "patch" in feats:
         st["patch"] = {"Tgt": {"rename": "Renamed", "derives": ["PartialEq"]}}
+    if "patch_inline" in feats:
+        st.setdefault("patch", {})
+        st["patch"].update({"InlineMode": {"rename": "RunMode", "derives": ["::schemars::JsonSchema"]}, "InlineLabel": {"rename": "Tag", "derives": ["::schemars::JsonSchema"]},
+                            "InlineObj": {"derives": ["::schemars::JsonSchema"]}})
     if "derive" in feats:
         st["derives"] = ["PartialEq"]
     if "map_btree" in feats:
@@ -226,6 +234,16 @@ def execute(cases_, tier, seed):
                 bt = base_fts.get((i if i != "Renamed" else "Tgt", m))
                 if bt is not None and re.search(r"\bTgt\b", bt) and t != re.sub(r"\bTgt\b", "Renamed", bt).replace("::std::collections::HashMap", mp):
                     probs.append("%s.%s: type %s, expected %s" % (i, m, t, re.sub(r"\bTgt\b", "Renamed", bt).replace("::std::collections::HashMap", mp)))
+        if "patch_inline" in F:
+            for old_name, new_name in (("InlineMode", "RunMode"), ("InlineLabel", "Tag"), ("InlineObj", "InlineObj")):
+                if new_name not in items:
+                    probs.append("patched inline type %s does not appear as %s" % (old_name, new_name))
+                else:
+                    dv = [nrm(dd) for dd in items[new_name]["attrs"]["derives"]]
+                    if "::schemars::JsonSchema" not in dv:
+                        probs.append("%s lacks the patch derive ::schemars::JsonSchema: %s" % (new_name, dv))
+                if old_name != new_name and old_name in idents_in(a.get("tokens", "")):
+                    probs.append("old name %s still occurs as an identifier in the output" % old_name)
         if "derive" in F:
             for name, it in items.items():
                 dv = [nrm(d) for d in it["attrs"]["derives"]]
